@@ -1483,7 +1483,9 @@ func (w *World) apply(tr string) bool {
 		}
 		m := rc.Msg{Kind: rc.Request, Index: uint32(arg(2)), Begin: uint32(arg(3)), Length: uint32(arg(4))}
 		r.send(m)
-		if r.unchokedByStorrent {
+		if r.unchokedByStorrent || r.gated {
+			// (a gated peer reads the request at a later point of its own choosing,
+			// possibly after it has handled an unchoke command that is already queued)
 			r.pendingUp = append(r.pendingUp, m)
 		}
 		if r.gated {
